@@ -68,6 +68,8 @@ def is_new_helper(f, idx):
     usual shape of `void helper(a) { helper(a, default); }` delegation.  A known function that merely gained a
     parameter (no known-arity sibling left) stays an anchor."""
     uq = f.get("uq")
+    if f.get("lambda"):
+        return True         # a closure has no name a rule could bind to: it is always read as part of its caller
     if uq not in known_functions():
         return True
     if "%s/%d" % (uq, len(f.get("params", []))) in known_arities():
@@ -147,8 +149,9 @@ def inlinable_calls(unit, fn, fd, force=None):
                     o = fd["nodes"][obj] if obj is not None else None
                     while o is not None and o.get("k") in ("ImplicitCastExpr",) and o.get("c"):
                         o = fd["nodes"][o["c"][0]]
-                    if o is None or o.get("k") != "CXXThisExpr":
-                        continue
+                    if o is None or (o.get("k") != "CXXThisExpr" and not (o.get("k") == "DeclRefExpr" and o.get("dk") in ("ParmVar", "Var"))):
+                        continue        # (a helper run on another object of the class -- `other.reset_()` -- is folded with
+                                        # `this` standing for that object)
                 elif n["k"] != "CallExpr" or not cal.get("static"):
                     continue
             out.append((b["id"], idx, e, tgt, skip))
@@ -315,6 +318,22 @@ def inline_once(unit, fd, bid, idx, call_id, tgt, instance, skip=0, this_obj=Non
             for dd in n.get("decls", []):
                 dmap[dd["d"]] = dd["d"] + DECL_OFFSET * instance
     new_nodes = [_remap_node(n, noff, dmap) for n in tgt["nodes"]]
+    if this_obj is None and call.get("k") == "CXXMemberCallExpr" and call.get("obj") is not None:
+        o = nodes[_strip_idx(nodes, call["obj"])]
+        if o.get("k") == "DeclRefExpr" and o.get("dk") in ("ParmVar", "Var") and not o.get("this_of"):
+            # `this` of the callee is the address of that variable
+            extra = []
+            for n in new_nodes:
+                if n.get("k") == "CXXThisExpr":
+                    ref = copy.deepcopy(o)
+                    ref["i"] = noff + len(new_nodes) + len(extra)
+                    ref["c"] = []
+                    extra.append(ref)
+                    for k_ in list(n.keys()):
+                        if k_ not in ("i", "l", "t"):
+                            n.pop(k_)
+                    n.update({"k": "UnaryOperator", "op": "&", "c": [ref["i"]]})
+            new_nodes.extend(extra)
     rets = []
     for n in new_nodes:
         if n.get("k") == "ReturnStmt":
